@@ -855,7 +855,7 @@ private:
     case JsonType::Int:
       return std::to_string(getInt());
     case JsonType::Double:
-      return std::to_string(getDouble());
+      return _serializeDouble(getDouble());
     case JsonType::String:
       return _escapeString(getString());
     case JsonType::Array:
@@ -865,6 +865,31 @@ private:
     default:
       return "null";
     }
+  }
+
+  // Shortest of %.15g/%.16g/%.17g that parses back to the same double; always contains
+  // '.' or an exponent so that it re-parses as Double rather than Int.
+  static std::string _serializeDouble(double d)
+  {
+    if (!std::isfinite(d))
+    {
+      return "null"; // JSON has no representation for NaN/Infinity
+    }
+    char buf[32];
+    for (int precision = 15; precision <= 17; ++precision)
+    {
+      std::snprintf(buf, sizeof(buf), "%.*g", precision, d);
+      if (std::strtod(buf, nullptr) == d)
+      {
+        break;
+      }
+    }
+    std::string result = buf;
+    if (result.find_first_of(".eE") == std::string::npos)
+    {
+      result += ".0";
+    }
+    return result;
   }
 
   std::string _serializeArray(const SerializeOptions &options, int depth) const
